@@ -320,3 +320,64 @@ Eval vm_compute in map (fun c => match bind (parseLines (snd c)) (accept_wire he
     ctx.extra["wire_cases"] = len(hello_cases) + len(acc_cases)
     ctx.extra["wire_disagreements"] = nbad
     ctx.extra["wire_model_abstains_non_ascii"] = nabst
+
+
+# ---------------------------------------------------------------------------------------------------------------
+# direct oracle on the real block reader (independent of the Coq build, so it also speaks when the translator refuses the source)
+def spec_refuses(h):
+    """the block format: lines separated by CRLF, each 'key: value' (the FIRST colon separates), text is UTF-8.
+    A block with a line that has no separator, or that is not text, is malformed."""
+    for line in h.split(b"\r\n"):
+        if b":" not in line:
+            return "a line without the key/value separator: %r" % (line,)
+        try:
+            line.decode("utf-8")
+        except UnicodeDecodeError:
+            return "a line that is not UTF-8 text: %r" % (line,)
+    return None
+
+
+PARSE_WITNESSES = [b"novalue", b"a: b\r\nnovalue", b"novalue\r\na: b", b"a: b\r\nnovalue\r\nc: d", b"", b"a: b\r\n", b"\r\na: b", b"a b", b"a=b",
+                   b"banana-decision-version: 3\r\ninitial-vocab-table-index 1 bb33", b"banana-decision-version 3\r\ninitial-vocab-table-index: 1 bb33",
+                   b"banana-decision-version: 3\r\ncurrent-connection abc 1\r\ninitial-vocab-table-index: 1 bb33",
+                   b"banana-negotiation-range: 3 3\r\ninitial-vocab-table-range 0 1\r\nmy-tub-id: abc", b"banana-negotiation-range 3 3\r\nmy-tub-id: abc",
+                   b"error go away", b"a: \xff", b"\xff\xfe: b", b"a: b\r\n\xc3: c"]
+
+
+def parse_oracle(ctx):
+    """'Malformed ... negotiation input only ever ends that connection attempt', at the reader: Negotiation.parseLines must REFUSE (raise, which
+    dataReceived turns into report-and-drop) every block that has a line without the separator or undecodable text -- it must not skip or
+    reinterpret the line, because every key has a default that would then silently apply."""
+    from harness import c13_impl as impl
+    r = ctx.rng
+    heads = list(PARSE_WITNESSES)
+    # every block of a real negotiation with every line damaged in turn
+    with impl.quiet():
+        blocks = impl.recorded_blocks((1, 3, 0, 1), True)
+    for blk in blocks:
+        for i in range(len(blk)):
+            k, v = blk[i]
+            for dname, dfn in impl.LINE_DAMAGE:
+                d2 = dfn(k, v)
+                if d2 is None:
+                    continue
+                lines = [a + b": " + b for (a, b) in blk]
+                lines[i] = d2[:-2]
+                heads.append(b"\r\n".join(lines))
+    for _ in range(ctx.n(60, 3000)):
+        heads.append(gen_header(r))
+    nref = 0
+    for h in heads:
+        why = spec_refuses(h)
+        ctx.case(["parse-oracle", list(h)], nontrivial=bool(h))
+        ctx.hist("parse_oracle", "malformed" if why else "well-formed")
+        if not why:
+            continue
+        nref += 1
+        try:
+            d = neg.Negotiation.parseLines(None, h)
+        except Exception:
+            continue
+        ctx.fail("oracle/malformed-block-parsed", "Negotiation.parseLines accepts a malformed block (%s): %r -> %r" % (why, h, d),
+                 replay=dict(header=list(h), parsed=repr(d)))
+    ctx.extra["parse_oracle_malformed_blocks"] = nref
